@@ -157,33 +157,27 @@ func (p *Pkg) DeleteReported() DeletionReport {
 			}
 		}
 		if d.Tok == token.CONST && d.Lparen.IsValid() {
-			// a fully deleted specification is removed when it is last or the next remaining one has its own values;
-			// otherwise its names are blanked (its expression is still repeated by the following constants)
+			// fully deleted specifications are removed, literally. A blank-only specification (`_`) that thereby loses
+			// the expression it repeated implicitly goes with them (nobody can refer to it); a NAMED constant that is
+			// kept but loses its expression is left as it is, and the type checker reports "missing init expr".
 			var out []ast.Spec
-			for i := len(specs) - 1; i >= 0; i-- {
-				vs := specs[i].(*ast.ValueSpec)
+			for _, sp := range specs {
+				vs := sp.(*ast.ValueSpec)
 				if full[vs] {
-					if len(out) == 0 || len(out[0].(*ast.ValueSpec).Values) > 0 {
+					continue
+				}
+				if len(out) == 0 && len(vs.Values) == 0 {
+					blank := true
+					for _, name := range vs.Names {
+						if name.Name != "_" {
+							blank = false
+						}
+					}
+					if blank {
 						continue
 					}
-					for _, name := range vs.Names {
-						name.Name = "_"
-					}
 				}
-				out = append([]ast.Spec{vs}, out...)
-			}
-			// the first remaining specification must carry an expression
-			if len(out) > 0 && len(out[0].(*ast.ValueSpec).Values) == 0 {
-				out[0].(*ast.ValueSpec).Values = []ast.Expr{&ast.Ident{Name: "iota"}}
-			}
-			allBlank := true
-			for _, sp := range out {
-				if !full[sp.(*ast.ValueSpec)] {
-					allBlank = false
-				}
-			}
-			if allBlank {
-				out = nil
+				out = append(out, vs)
 			}
 			specs = out
 		}
